@@ -80,7 +80,7 @@ func (t *tracer) followable(from *ssa.Function, callee *ssa.Function) bool {
 	if callee == nil || len(callee.Blocks) == 0 || !t.c.isRepoFunc(callee) {
 		return false
 	}
-	if callee.Pkg == nil || from.Pkg == nil || callee.Pkg != from.Pkg {
+	if cp, fp := pkgOfFunc(callee), pkgOfFunc(from); cp == nil || fp == nil || cp != fp {
 		return false
 	}
 	if t.stop != nil && t.stop(callee) {
